@@ -2,21 +2,19 @@ import Aiorpcx.C13.Lemmas
 /-! C13 — what one quiescent big-step does, in the vocabulary of the property. -/
 namespace Aiorpcx.C13
 
-/-- the invariant of quiescent states (any targets, also ≤ 0) -/
+/-- the invariant of quiescent states of the repaired class — **any** targets, also ≤ 0, and any
+number of refusals: no permit is ever lost (`S + |holders| = V`), nobody waits while a permit is
+free, and at least one permit always stays in circulation -/
 structure Inv (s : Lim) : Prop where
   S_nonneg : 0 ≤ s.S
-  cons : s.S + s.holders.length + s.leaked = s.V
+  cons : s.S + s.holders.length = s.V
   wait_S : s.waiters ≠ [] → s.S = 0
-
-/-- limits of at least 1 only: nothing was ever refused -/
-structure Pos (s : Lim) : Prop where
-  T_pos : 1 ≤ s.T
   V_pos : 1 ≤ s.V
   no_leak : s.leaked = 0
+  fx : s.fixed = true
 
-theorem init_inv (n : Nat) : Inv (init n) := ⟨by simp [init], by simp [init], by simp [init]⟩
-theorem init_pos (n : Nat) (h : 1 ≤ n) : Pos (init n) :=
-  ⟨by simp [init]; omega, by simp [init]; omega, rfl⟩
+theorem init_inv (n : Int) : Inv (init n) :=
+  ⟨by simp only [init]; omega, by simp [init], by simp [init], by simp only [init]; omega, rfl, rfl⟩
 
 /-- result of `finish` on a work state -/
 structure FinishSpec (w : Work) (r : Lim × List Ev) : Prop where
@@ -29,20 +27,24 @@ structure FinishSpec (w : Work) (r : Lim × List Ev) : Prop where
   V_le : r.1.V ≤ max w.st.V w.st.T
   V_raise : 0 < w.st.T → w.woken ≠ [] → r.1.V = max w.st.V w.st.T
   V_same : w.st.T ≤ w.st.V → r.1.V = w.st.V
-  L_pos : 0 < w.st.T → r.1.leaked = w.st.leaked
+  L : r.1.leaked = w.st.leaked
+  H_nonpos : w.st.T ≤ 0 → r.1.holders = w.st.holders
+  fx : r.1.fixed = true
+  nil : w.woken = [] → r = (w.st, w.evs)
   evs_ext : ∃ e, r.2 = w.evs ++ e ∧ (0 < w.st.T → ∀ x ∈ e, ∃ i, x = Ev.entered i) ∧
             (w.st.T ≤ 0 → ∀ x ∈ e, ∃ i, x = Ev.refused i)
 
 theorem finish_spec (w : Work) (h : WInv w) : FinishSpec w (finish w) := by
   have d := drain_spec (w.woken.length + w.st.waiters.length) w h (Nat.le_refl _)
   unfold finish
-  refine ⟨⟨d.inv.S_nonneg, d.inv.wait_S⟩, d.T, ?_, ?_, d.wl, d.V_ge, d.V_le, d.V_raise, d.V_same, d.L_pos, d.evs_ext⟩
+  refine ⟨⟨d.inv.S_nonneg, d.inv.wait_S⟩, d.T, ?_, ?_, d.wl, d.V_ge, d.V_le, d.V_raise, d.V_same, d.L, d.H_nonpos, d.inv.fx, ?_, d.evs_ext⟩
   · have := d.slack
     simp only [Work.slack, d.done, List.length_nil] at this ⊢
     omega
   · have := d.queue
     simp only [Work.queue, d.done, List.nil_append] at this
     exact this
+  · intro hnil; rw [d.nil hnil]
 
 /-- `enter i` when the semaphore is not locked -/
 structure EnterNowSpec (s : Lim) (i : Nat) (r : Lim × List Ev) : Prop where
@@ -51,74 +53,76 @@ structure EnterNowSpec (s : Lim) (i : Nat) (r : Lim × List Ev) : Prop where
   queue : ids r.2 ++ r.1.waiters = [i]
   V_le : r.1.V ≤ max s.V s.T
   V_ge : s.V ≤ r.1.V
-  pos : 0 < s.T → r.1.V = max s.V s.T ∧ r.2 = [Ev.entered i] ∧ r.1.leaked = s.leaked
-  nonpos : s.T ≤ 0 → r.1.V = s.V ∧ r.2 = [Ev.refused i]
+  pos : 0 < s.T → r.1.V = max s.V s.T ∧ r.2 = [Ev.entered i] ∧ r.1.holders = s.holders ++ [i]
+  nonpos : s.T ≤ 0 → r.1.V = s.V ∧ r.2 = [Ev.refused i] ∧ r.1.holders = s.holders
 
 theorem enter_now_spec (s : Lim) (i : Nat) (h : Inv s) (hS : s.S ≠ 0) (hw : s.waiters = []) :
     EnterNowSpec s i (finish (admitTask i ⟨{ s with S := s.S - 1 }, [], []⟩)) := by
   have hS0 := h.S_nonneg
   have hc := h.cons
-  have w0inv : WInv ⟨{ s with S := s.S - 1 }, [], []⟩ := ⟨by simp only []; omega, by simp [hw]⟩
+  have hl := h.no_leak
+  have hv := h.V_pos
+  have w0inv : WInv ⟨{ s with S := s.S - 1 }, [], []⟩ :=
+    ⟨by simp only []; omega, by simp [hw], h.fx⟩
   have a := admitTask_spec i _ w0inv
   have f := finish_spec _ a.inv
   generalize hw1 : admitTask i ⟨{ s with S := s.S - 1 }, [], []⟩ = w1 at a f
   generalize finish w1 = r at f
   have hsl0 : (⟨{ s with S := s.S - 1 }, [], []⟩ : Work).slack = 1 := by
-    simp only [Work.slack, List.length_nil]; omega
+    simp only [Work.slack, List.length_nil, hl]; omega
   have aT : w1.st.T = s.T := a.T
+  have aL : w1.st.leaked = s.leaked := a.L
   have fq := f.queue
   have aq := a.queue
   simp only [ids_nil, List.nil_append, hw, List.append_nil] at aq
-  refine ⟨⟨f.inv0.1, ?_, f.inv0.2⟩, by rw [f.T, aT], ?_, ?_, ?_, ?_, ?_⟩
-  · have := f.slack; rw [a.slack, hsl0] at this; omega
-  · rw [fq]; simpa [Work.queue] using aq
+  have hq : ids r.2 ++ r.1.waiters = [i] := by rw [fq]; simpa [Work.queue] using aq
+  have hVge : s.V ≤ r.1.V := by
+    have := f.V_ge
+    by_cases hT : 0 < s.T
+    · have := (a.pos hT).1; simp only [] at this; omega
+    · have := (a.nonpos (by simpa using Int.not_lt.mp hT)).1; simp only [] at this; omega
+  have hL : r.1.leaked = 0 := by rw [f.L, aL]; exact hl
+  refine ⟨⟨f.inv0.1, ?_, f.inv0.2, by omega, hL, f.fx⟩, by rw [f.T, aT], hq, ?_, hVge, ?_, ?_⟩
+  · have := f.slack; rw [a.slack, hsl0, hL] at this; simp at this; omega
   · have := f.V_le; rw [aT] at this
     by_cases hT : 0 < s.T
     · have := (a.pos hT).1; simp only [] at this; omega
     · have := (a.nonpos (by simpa using Int.not_lt.mp hT)).1; simp only [] at this; omega
-  · have := f.V_ge
-    by_cases hT : 0 < s.T
-    · have := (a.pos hT).1; simp only [] at this; omega
-    · have := (a.nonpos (by simpa using Int.not_lt.mp hT)).1; simp only [] at this; omega
   · intro hT
-    obtain ⟨p1, p2, p3, p4⟩ := a.pos hT
-    simp only [List.nil_append] at p1 p2 p3 p4
+    obtain ⟨p1, p2, p3⟩ := a.pos hT
+    simp only [List.nil_append] at p1 p2 p3
     have hv := f.V_same (by rw [aT, p1]; omega)
-    refine ⟨by rw [hv, p1], ?_, by rw [f.L_pos (by rw [aT]; exact hT), p4]⟩
-    -- no waiter exists, so nobody else can be woken: the queue is just [i]
-    obtain ⟨e, he, hp, _⟩ := f.evs_ext
-    have hq : ids r.2 ++ r.1.waiters = [i] := by rw [fq]; simpa [Work.queue] using aq
-    rw [he, p2, ids_append] at hq
-    simp only [ids, List.cons_append, List.nil_append, List.cons.injEq, true_and,
-      List.append_eq_nil_iff] at hq
-    rw [he, p2]
-    cases e with
-    | nil => rfl
-    | cons x xs =>
-      obtain ⟨j, rfl⟩ := hp (by rw [aT]; exact hT) x (by simp)
-      simp [ids] at hq
+    -- no waiter exists, so nobody is woken: the step ends with the admission of i
+    have hwk : w1.woken = [] := by
+      have aq' := aq
+      rw [p2] at aq'
+      simp only [List.nil_append, ids, List.cons_append, List.cons.injEq, true_and,
+        List.append_eq_nil_iff] at aq'
+      exact aq'.1
+    have hr := f.nil hwk
+    refine ⟨by rw [hv, p1], by rw [hr]; exact p2, by rw [hr]; exact p3⟩
   · intro hT
-    obtain ⟨p1, p2, p3, p4, p5, p6, p7⟩ := a.nonpos hT
-    simp only [List.nil_append] at p1 p2 p3 p4 p5 p6 p7
+    obtain ⟨p1, p2, p3⟩ := a.nonpos hT
+    simp only [List.nil_append] at p1 p2 p3
     have hv := f.V_le; have hv2 := f.V_ge; rw [aT, p1] at hv; rw [p1] at hv2
     obtain ⟨e, he, _, hn⟩ := f.evs_ext
-    have hq : ids r.2 ++ r.1.waiters = [i] := by rw [fq]; simpa [Work.queue] using aq
-    rw [he, p2, ids_append] at hq
+    have hq' := hq
+    rw [he, p2, ids_append] at hq'
     simp only [ids, List.cons_append, List.nil_append, List.cons.injEq, true_and,
-      List.append_eq_nil_iff] at hq
+      List.append_eq_nil_iff] at hq'
     have he0 : e = [] := by
       cases e with
       | nil => rfl
       | cons x xs =>
         obtain ⟨j, rfl⟩ := hn (by rw [aT]; exact hT) x (by simp)
-        simp [ids] at hq
+        simp [ids] at hq'
     subst he0
-    exact ⟨by omega, by rw [he, p2]; rfl⟩
+    exact ⟨by omega, by rw [he, p2]; rfl, by rw [f.H_nonpos (by rw [aT]; exact hT), p3]⟩
 
 
-/-- `exit i` of a holder when no excess capacity has to be retired (`V ≤ T`): the permit goes back
+/-- `exit i` of a holder when no capacity has to be retired (`V ≤ max T 1`): the permit goes back
 to the semaphore -/
-structure ExitReleaseSpec (s : Lim) (r : Lim × List Ev) : Prop where
+structure ExitReleaseSpec (s : Lim) (i : Nat) (r : Lim × List Ev) : Prop where
   inv : Inv r.1
   T : r.1.T = s.T
   queue : ids r.2 ++ r.1.waiters = s.waiters
@@ -126,16 +130,18 @@ structure ExitReleaseSpec (s : Lim) (r : Lim × List Ev) : Prop where
   V_ge : s.V ≤ r.1.V
   V_same : s.T ≤ s.V → r.1.V = s.V
   progress : s.waiters ≠ [] → ids r.2 ≠ [] ∧ (0 < s.T → r.1.V = max s.V s.T)
-  L_pos : 0 < s.T → r.1.leaked = s.leaked
+  H_nonpos : s.T ≤ 0 → r.1.holders = s.holders.erase i
   evs : (0 < s.T → ∀ x ∈ r.2, ∃ j, x = Ev.entered j) ∧ (s.T ≤ 0 → ∀ x ∈ r.2, ∃ j, x = Ev.refused j)
 
 theorem exit_release_spec (s : Lim) (i : Nat) (h : Inv s) (hi : i ∈ s.holders) :
-    ExitReleaseSpec s (finish (release ⟨{ s with holders := s.holders.erase i }, [], []⟩)) := by
+    ExitReleaseSpec s i (finish (release ⟨{ s with holders := s.holders.erase i }, [], []⟩)) := by
   have hS0 := h.S_nonneg
   have hc := h.cons
+  have hl := h.no_leak
+  have hv := h.V_pos
   have hlen : (s.holders.erase i).length = s.holders.length - 1 := List.length_erase_of_mem hi
   have hpos : 1 ≤ s.holders.length := List.length_pos_of_mem hi
-  have w0inv : WInv ⟨{ s with holders := s.holders.erase i }, [], []⟩ := ⟨hS0, h.wait_S⟩
+  have w0inv : WInv ⟨{ s with holders := s.holders.erase i }, [], []⟩ := ⟨hS0, h.wait_S, h.fx⟩
   obtain ⟨rinv, fr, hs⟩ := release_spec _ w0inv
   have f := finish_spec _ rinv
   generalize release ⟨{ s with holders := s.holders.erase i }, [], []⟩ = w1 at rinv fr hs f
@@ -148,14 +154,15 @@ theorem exit_release_spec (s : Lim) (i : Nat) (h : Inv s) (hi : i ∈ s.holders)
   have e6 : w1.woken ++ w1.st.waiters = s.waiters := by simpa using fr.q
   have e7 : w1.st.S + w1.woken.length = s.S + 1 := by simpa using hs
   have hsl : w1.slack = 0 := by
-    simp only [Work.slack, e2, e3, e4, hlen]; omega
+    simp only [Work.slack, e2, e3, e4, hlen, hl]; omega
   obtain ⟨e, he, hp, hn⟩ := f.evs_ext
   rw [e5, List.nil_append] at he
-  refine ⟨⟨f.inv0.1, ?_, f.inv0.2⟩, by rw [f.T, e1], ?_, ?_, ?_, ?_, ?_, ?_, ?_⟩
-  · have := f.slack; rw [hsl] at this; omega
+  have hL : r.1.leaked = 0 := by rw [f.L, e4]; exact hl
+  have hVge : s.V ≤ r.1.V := by have := f.V_ge; rw [e2] at this; exact this
+  refine ⟨⟨f.inv0.1, ?_, f.inv0.2, by omega, hL, f.fx⟩, by rw [f.T, e1], ?_, ?_, hVge, ?_, ?_, ?_, ?_⟩
+  · have := f.slack; rw [hsl, hL] at this; simp at this; omega
   · rw [f.queue]; simp [Work.queue, e5, e6]
   · have := f.V_le; rw [e1, e2] at this; exact this
-  · have := f.V_ge; rw [e2] at this; exact this
   · intro hTV; have := f.V_same (by rw [e1, e2]; exact hTV); rw [this, e2]
   · intro hne
     have hS : s.S = 0 := h.wait_S hne
@@ -181,7 +188,7 @@ theorem exit_release_spec (s : Lim) (i : Nat) (h : Inv s) (hi : i ∈ s.holders)
     · intro hT
       have := f.V_raise (by rw [e1]; exact hT) hwk
       rw [this, e1, e2]
-  · intro hT; rw [f.L_pos (by rw [e1]; exact hT), e4]
+  · intro hT; rw [f.H_nonpos (by rw [e1]; exact hT), e3]
   · refine ⟨?_, ?_⟩
     · intro hT x hx; rw [he] at hx; exact hp (by rw [e1]; exact hT) x hx
     · intro hT x hx; rw [he] at hx; exact hn (by rw [e1]; exact hT) x hx
